@@ -1,482 +1,26 @@
-"""py -> Lean translator for a restricted subset of commonroad-io (the 'T' tie of DESIGN.md §2).
+"""Translators: regenerate lean/Gen/ from the working tree of commonroad-io (called by common.run_translators on every run).
 
-`regenerate(repo, gen_dir)` parses the CURRENT source of the target functions with `ast` and writes Lean definitions to
-`<gen_dir>/Src.lean` (module `Gen.Src`). The tie theorems in lean/CRProps/T*.lean import that module and prove each generated
-definition equal to the hand-written model the property theorems are about, so `lake build` re-checks the tie against what the code
-says NOW. A function the translator cannot handle any more is not a verdict: its last good translation (harness/translate/lastgood/)
-is emitted instead and the status says `lost` (the correspondence tie still stands).
-
-Subset: return / if / elif / else / assert / simple and augmented assignment to local names / tuple assignment / while (as a fuel loop);
-arithmetic + - * / unary -, chained comparisons, and / or / not, conditional expressions, attribute reads through a per-target map,
-`is None` tests on mapped optionals, a fixed table of calls (math.fmod, bool, min, max, len, np.cumsum/insert/argmax patterns,
-constructor calls, calls of other translated methods), static evaluation of `type(x) is T` / `isinstance(x, T)` from declared types.
-"""
+Every sub-module `translate/<name>.py` that defines `regenerate(repo, gen_dir) -> dict` is run; the returned dicts
+(name -> status string) are merged into the evidence (`coverage.translators`).  A translator that raises is reported as
+`lost: ...` (never a verdict); it is expected to leave a usable file in gen_dir itself (committed fall-back copy)."""
 from __future__ import annotations
 
-import ast
+import importlib
 import os
-import textwrap
-
-HERE = os.path.dirname(os.path.abspath(__file__))
-LASTGOOD = os.path.join(HERE, "lastgood")
+import pkgutil
 
 
-class Unsupported(Exception):
-    pass
-
-
-class Target:
-    def __init__(self, name, file, func, cls=None, params=(), ret="Rat", attrs=None, names=None, types=None, calls=None,
-                 monadic=False, fuel=False, doc="", body_of_if=False, index_attrs=None):
-        self.name, self.file, self.func, self.cls = name, file, func, cls
-        self.params = list(params)          # [(python name or None, lean binder text)]
-        self.ret = ret
-        self.attrs = attrs or {}            # (var, attr) -> lean text
-        self.names = names or {}            # global / free names -> lean text
-        self.types = types or {}            # python var -> declared type tag for static isinstance evaluation
-        self.calls = calls or {}            # method name -> (lean function, monadic?)
-        self.monadic = monadic
-        self.fuel = fuel
-        self.doc = doc
-        self.body_of_if = body_of_if        # translate only the body of the leading `if not hasattr(...)` (memoised property)
-        self.index_attrs = index_attrs or {}  # (var, attr) -> how a subscript of that attribute is rendered
-
-
-def find_func(tree, cls, func):
-    body = tree.body
-    if cls:
-        for n in body:
-            if isinstance(n, ast.ClassDef) and n.name == cls:
-                body = n.body
-                break
-        else:
-            raise Unsupported(f"class {cls} not found")
-    cands = [n for n in body if isinstance(n, ast.FunctionDef) and n.name == func]
-    if not cands:
-        raise Unsupported(f"function {func} not found")
-    # a property with a setter: take the getter (first) unless the target asks for the setter
-    return cands[0]
-
-
-class Tr:
-    def __init__(self, t: Target):
-        self.t = t
-        self.aux = []           # auxiliary loop definitions
-        self.nloop = 0
-        self.uses_bind = False
-
-    # ---------------------------------------------------------------- expressions
-    def e(self, n) -> str:
-        t = self.t
-        if isinstance(n, ast.Constant):
-            if n.value is None:
-                return "none"
-            if isinstance(n.value, bool):
-                return "true" if n.value else "false"
-            if isinstance(n.value, int):
-                return f"{n.value}" if n.value >= 0 else f"({n.value})"
-            if isinstance(n.value, float):
-                if n.value == int(n.value):
-                    return f"{int(n.value)}"
-                raise Unsupported(f"float literal {n.value}")
-            raise Unsupported(f"constant {n.value!r}")
-        if isinstance(n, ast.Name):
-            if n.id in t.names:
-                return t.names[n.id]
-            return self.local(n.id)
-        if isinstance(n, ast.Attribute) and isinstance(n.value, ast.Subscript) and ("[]", n.attr) in t.attrs:
-            return t.attrs[("[]", n.attr)].format(x=self.e(n.value))
-        if isinstance(n, ast.Attribute):
-            key = (self.base_name(n.value), n.attr)
-            if key in t.attrs:
-                return t.attrs[key]
-            dotted = self.dotted(n)
-            if dotted in t.names:
-                return t.names[dotted]
-            raise Unsupported(f"attribute {dotted}")
-        if isinstance(n, ast.UnaryOp):
-            if isinstance(n.op, ast.USub):
-                return f"(-{self.e(n.operand)})"
-            if isinstance(n.op, ast.Not):
-                return f"(!{self.e(n.operand)})"
-            raise Unsupported("unary op")
-        if isinstance(n, ast.BinOp):
-            if isinstance(n.op, ast.Add) and isinstance(n.left, ast.Call) and self.dotted(n.left.func) == "np.cumsum":
-                return f"(CR.Py.cumsumPlus {self.e(n.left.args[0])} {self.e(n.right)})"
-            a, b = self.e(n.left), self.e(n.right)
-            if isinstance(n.op, ast.Add):
-                return f"({a} + {b})"
-            if isinstance(n.op, ast.Sub):
-                return f"({a} - {b})"
-            if isinstance(n.op, ast.Mult):
-                return f"({a} * {b})"
-            if isinstance(n.op, ast.Div):
-                self.uses_bind = True
-                return f"(← CR.Py.div {a} {b})"
-            if isinstance(n.op, ast.Mod):
-                self.uses_bind = True
-                return f"(← CR.Py.imod {a} {b})"
-            raise Unsupported(f"binary op {type(n.op).__name__}")
-        if isinstance(n, ast.BoolOp):
-            op = " && " if isinstance(n.op, ast.And) else " || "
-            return "(" + op.join(self.e(v) for v in n.values) + ")"
-        if isinstance(n, ast.Compare):
-            # static type tests
-            st = self.static_test(n)
-            if st is not None:
-                return "true" if st else "false"
-            parts, left = [], n.left
-            for op, right in zip(n.ops, n.comparators):
-                parts.append(self.cmp(op, left, right))
-                left = right
-            return parts[0] if len(parts) == 1 else "(" + " && ".join(parts) + ")"
-        if isinstance(n, ast.IfExp):
-            return f"(if {self.e(n.test)} then {self.e(n.body)} else {self.e(n.orelse)})"
-        if isinstance(n, ast.Call):
-            return self.call(n)
-        if isinstance(n, ast.Subscript):
-            key = (self.base_name(n.value.value), n.value.attr) if isinstance(n.value, ast.Attribute) else None
-            if key in t.index_attrs:
-                return t.index_attrs[key].format(i=self.e(n.slice))
-            self.uses_bind = True
-            return f"(← CR.Py.getItem {self.e(n.value)} {self.e(n.slice)})"
-        if isinstance(n, ast.Tuple):
-            return "(" + ", ".join(self.e(x) for x in n.elts) + ")"
-        if isinstance(n, ast.ListComp):
-            if len(n.generators) == 1 and not n.generators[0].ifs and isinstance(n.generators[0].target, ast.Name):
-                g = n.generators[0]
-                var = g.target.id
-                key = (self.base_name(n.elt.value), n.elt.attr) if isinstance(n.elt, ast.Attribute) else None
-                if key and key[0] == var and ("*", key[1]) in t.attrs:
-                    return f"(({self.e(g.iter)}).map (fun {var} => {t.attrs[('*', key[1])].format(v=var)}))"
-            raise Unsupported("list comprehension")
-        raise Unsupported(f"expression {type(n).__name__}")
-
-    def local(self, name):
-        return {"end": "end_", "from": "from_", "type": "type_"}.get(name, name)
-
-    def base_name(self, n):
-        return n.id if isinstance(n, ast.Name) else None
-
-    def dotted(self, n):
-        if isinstance(n, ast.Name):
-            return n.id
-        if isinstance(n, ast.Attribute):
-            return self.dotted(n.value) + "." + n.attr
-        return "?"
-
-    def cmp(self, op, left, right):
-        # `x is None` / `x is not None` on mapped optionals
-        if isinstance(op, (ast.Is, ast.IsNot)) and isinstance(right, ast.Constant) and right.value is None:
-            x = self.e(left)
-            return f"({x}).isNone" if isinstance(op, ast.Is) else f"({x}).isSome"
-        a, b = self.e(left), self.e(right)
-        sym = {ast.Lt: "<", ast.LtE: "≤", ast.Gt: ">", ast.GtE: "≥", ast.Eq: "=", ast.NotEq: "≠"}.get(type(op))
-        if sym is None:
-            raise Unsupported(f"comparison {type(op).__name__}")
-        return f"decide ({a} {sym} {b})"
-
-    def static_test(self, n):
-        """`type(x) is T` evaluated from the declared argument types."""
-        if len(n.ops) == 1 and isinstance(n.ops[0], (ast.Is, ast.IsNot)) and isinstance(n.left, ast.Call) \
-                and isinstance(n.left.func, ast.Name) and n.left.func.id == "type" and len(n.left.args) == 1:
-            v = self.dotted(n.left.args[0])
-            if v in self.t.types:
-                same = self.t.types[v] == self.dotted(n.comparators[0])
-                return same if isinstance(n.ops[0], ast.Is) else not same
-        return None
-
-    def call(self, n):
-        t = self.t
-        f = n.func
-        dotted = self.dotted(f)
-        if dotted == "isinstance" and len(n.args) == 2:
-            v = self.dotted(n.args[0])
-            if v in t.types:
-                names = self.dotted(n.args[1])
-                if isinstance(n.args[1], ast.Tuple):
-                    names = " ".join(self.dotted(x) for x in n.args[1].elts)
-                table = {"num": ["float", "int", "validity.ValidTypes.NUMBERS", "ValidTypes.NUMBERS"],
-                         "Interval": ["Interval"], "AngleInterval": ["AngleInterval", "Interval"]}
-                hit = any(x in names.split() or x == names for x in table.get(t.types[v], [t.types[v]]))
-                return "true" if hit else "false"
-            raise Unsupported(f"isinstance on untyped {v}")
-        if dotted == "np.argmax" and isinstance(n.args[0], ast.Compare) and isinstance(n.args[0].ops[0], ast.Lt):
-            c = n.args[0]
-            return f"(CR.Py.argmaxLt {self.e(c.left)} {self.e(c.comparators[0])})"
-        args = [self.e(a) for a in n.args]
-        if dotted == "math.fmod":
-            return f"(CR.Py.fmod {args[0]} {args[1]})"
-        if dotted == "bool":
-            return args[0]
-        if dotted in ("min", "max") and len(args) == 2:
-            return f"({dotted} {args[0]} {args[1]})"
-        if dotted == "len":
-            return f"(({args[0]}).length : Int)"
-        if dotted == "np.cumsum":
-            return f"(CR.cumsum {args[0]})"
-        if dotted == "np.insert" and len(args) == 3 and args[1] == "0":
-            return f"(CR.Py.insert0 {args[0]} {args[2]})"
-        # constructor calls: type(self)(a, b) / ClassName(a, b)
-        if isinstance(f, ast.Call) and self.dotted(f.func) == "type" and len(f.args) == 1:
-            key = "type(" + self.dotted(f.args[0]) + ")"
-            if key in t.calls:
-                return self.mcall(t.calls[key], args)
-        if dotted in t.calls:
-            return self.mcall(t.calls[dotted], args)
-        raise Unsupported(f"call {dotted}")
-
-    def mcall(self, spec, args):
-        fn, monadic = spec
-        txt = f"{fn} " + " ".join(args)
-        if monadic:
-            self.uses_bind = True
-            return f"(← {txt})"
-        return f"({txt})"
-
-    # ---------------------------------------------------------------- statements
-    def block(self, stmts, ind) -> str:
-        """Translate a statement list that must end by returning on every path."""
-        pad = "  " * ind
-        if not stmts:
-            raise Unsupported("path without return")
-        s, rest = stmts[0], stmts[1:]
-        if isinstance(s, ast.Expr) and isinstance(s.value, ast.Constant) and isinstance(s.value.value, str):
-            return self.block(rest, ind)            # docstring
-        if isinstance(s, ast.Return):
-            if s.value is None:
-                raise Unsupported("bare return")
-            v = self.e(s.value)
-            if self.t.ret.startswith("Option") and not (isinstance(s.value, ast.Constant) and s.value.value is None) \
-                    and not isinstance(s.value, ast.Name):
-                v = f"some {v}"
-            return f"{pad}return {v}"
-        if isinstance(s, ast.Assert):
-            return f"{pad}CR.Py.assert {self.e(s.test)}\n" + self.block(rest, ind)
-        if isinstance(s, ast.Assign) and len(s.targets) == 1:
-            tg = s.targets[0]
-            if isinstance(tg, ast.Name):
-                return f"{pad}let {self.local(tg.id)} := {self.e(s.value)}\n" + self.block(rest, ind)
-            if isinstance(tg, ast.Tuple) and all(isinstance(x, ast.Name) for x in tg.elts):
-                names = ", ".join(self.local(x.id) for x in tg.elts)
-                return f"{pad}let ({names}) := {self.e(s.value)}\n" + self.block(rest, ind)
-            raise Unsupported("assignment target")
-        if isinstance(s, ast.AugAssign) and isinstance(s.target, ast.Name):
-            op = {ast.Add: "+", ast.Sub: "-", ast.Mult: "*"}.get(type(s.op))
-            if op is None:
-                raise Unsupported("augmented op")
-            x = self.local(s.target.id)
-            return f"{pad}let {x} := {x} {op} {self.e(s.value)}\n" + self.block(rest, ind)
-        if isinstance(s, ast.If):
-            test = self.e(s.test)
-            if test == "true":
-                return self.block(list(s.body) + ([] if self.returns(s.body) else rest), ind)
-            if test == "false":
-                return self.block(list(s.orelse) + ([] if s.orelse and self.returns(s.orelse) else rest), ind)
-            then = self.block(list(s.body) + ([] if self.returns(s.body) else rest), ind + 1)
-            els = self.block(list(s.orelse) + ([] if s.orelse and self.returns(s.orelse) else rest), ind + 1)
-            return f"{pad}if {test} then\n{then}\n{pad}else\n{els}"
-        if isinstance(s, ast.While):
-            if not self.t.fuel:
-                raise Unsupported("while loop in a target without fuel")
-            vars_ = sorted({self.local(x.target.id if isinstance(x, ast.AugAssign) else x.targets[0].id) for x in s.body})
-            self.nloop += 1
-            lname = f"{self.t.name}.loop{self.nloop}"
-            body = []
-            for x in s.body:
-                if isinstance(x, ast.AugAssign) and isinstance(x.target, ast.Name):
-                    op = {ast.Add: "+", ast.Sub: "-"}[type(x.op)]
-                    body.append((self.local(x.target.id), f"{self.local(x.target.id)} {op} {self.e(x.value)}"))
-                elif isinstance(x, ast.Assign) and isinstance(x.targets[0], ast.Name):
-                    body.append((self.local(x.targets[0].id), self.e(x.value)))
-                else:
-                    raise Unsupported("loop body")
-            tup = ", ".join(vars_)
-            binders = " ".join(f"({p})" for _, p in self.t.params if "fuel" not in p)
-            pnames = " ".join(p.split(":")[0].strip() for _, p in self.t.params if "fuel" not in p and p.split(":")[0].strip() not in vars_)
-            extra = " ".join(f"({p})" for _, p in self.t.params if "fuel" not in p and p.split(":")[0].strip() not in vars_)
-            lets = "".join(f"      let {v} := {ex}\n" for v, ex in body)
-            ty = " × ".join("Rat" for _ in vars_)
-            self.aux.append(
-                f"def {lname} {extra} : Nat → {' → '.join('Rat' for _ in vars_)} → {ty}\n"
-                f"  | 0, {tup} => ({tup})\n"
-                f"  | n + 1, {tup} =>\n"
-                f"    if {self.e(s.test)} then\n{lets}      {lname} {pnames} n {' '.join(vars_)}\n"
-                f"    else ({tup})\n")
-            _ = binders
-            call = f"{lname} {pnames} fuel {' '.join(vars_)}"
-            bind = f"{pad}let ({tup}) := {call}\n" if len(vars_) > 1 else f"{pad}let {tup} := {call}\n"
-            return bind + self.block(rest, ind)
-        raise Unsupported(f"statement {type(s).__name__}")
-
-    def returns(self, stmts):
-        if not stmts:
-            return False
-        s = stmts[-1]
-        if isinstance(s, ast.Return):
-            return True
-        if isinstance(s, ast.If):
-            return self.returns(s.body) and bool(s.orelse) and self.returns(s.orelse)
-        return False
-
-    # ---------------------------------------------------------------- whole function
-    def function(self, fn: ast.FunctionDef) -> str:
-        t = self.t
-        stmts = list(fn.body)
-        if t.body_of_if:
-            # memoised property:  if not hasattr(self, "_x"): <compute self._x> ; return self._x
-            first = [s for s in stmts if not (isinstance(s, ast.Expr) and isinstance(s.value, ast.Constant))][0]
-            if not isinstance(first, ast.If):
-                raise Unsupported("memoised property shape")
-            new = []
-            last = None
-            for s in first.body:
-                if isinstance(s, ast.Assign) and isinstance(s.targets[0], ast.Attribute):
-                    last = s.targets[0].attr
-                    new.append(ast.Assign(targets=[ast.Name(id=last)], value=s.value))
-                else:
-                    new.append(s)
-            new.append(ast.Return(value=ast.Name(id=last)))
-            t.attrs[("self", last)] = last
-            stmts = new
-        body = self.block(stmts, 1)
-        binders = " ".join(f"({p})" for _, p in t.params)
-        ret = f"Res ({t.ret})" if t.monadic else t.ret
-        if t.monadic:
-            head = f"def {t.name} {binders} : {ret} := do\n{body}\n"
-        else:
-            if self.uses_bind:
-                raise Unsupported("partial operation in a target declared pure")
-            head = f"def {t.name} {binders} : {ret} := Id.run do\n{body}\n"
-        doc = f"/-- {t.file}: {(t.cls + '.') if t.cls else ''}{t.func}{(' — ' + t.doc) if t.doc else ''} -/\n"
-        return "".join(a + "\n" for a in self.aux) + doc + head
-
-
-def targets():
-    I = {("self", "_start"): "self.lo", ("self", "start"): "self.lo", ("self", "_end"): "self.hi", ("self", "end"): "self.hi"}
-
-    def iv(var):
-        return {(var, "_start"): f"{var}.lo", (var, "start"): f"{var}.lo", (var, "_end"): f"{var}.hi", (var, "end"): f"{var}.hi"}
-    U = "commonroad/common/util.py"
-    mk = {"type(self)": ("CR.Iv.mk", True), "Interval": ("CR.Iv.mk", True)}
-    ts = [
-        Target("Interval_contains_num", U, "contains", "Interval", [("self", "self : CR.Iv.I"), ("other", "other : Rat")], "Bool",
-               attrs=dict(I), types={"other": "num"}, doc="argument is a number"),
-        Target("Interval_contains_interval", U, "contains", "Interval", [("self", "self : CR.Iv.I"), ("other", "other : CR.Iv.I")],
-               "Bool", attrs={**I, **iv("other")}, types={"other": "Interval"}, doc="argument is an Interval"),
-        Target("Interval_overlaps", U, "overlaps", "Interval", [("self", "self : CR.Iv.I"), ("interval", "interval : CR.Iv.I")],
-               "Bool", attrs={**I, **iv("interval")}),
-        Target("Interval_intersection", U, "intersection", "Interval", [("self", "self : CR.Iv.I"), ("other", "other : CR.Iv.I")],
-               "Option CR.Iv.I", attrs={**I, **iv("other")}, monadic=True,
-               calls={**mk, "self.overlaps": ("Interval_overlaps self", False)}),
-        Target("Interval_add", U, "__add__", "Interval", [("self", "self : CR.Iv.I"), ("other", "other : Rat")], "CR.Iv.I",
-               attrs=dict(I), monadic=True, calls=mk),
-        Target("Interval_sub", U, "__sub__", "Interval", [("self", "self : CR.Iv.I"), ("other", "other : Rat")], "CR.Iv.I",
-               attrs=dict(I), monadic=True, calls=mk),
-        Target("Interval_mul", U, "__mul__", "Interval", [("self", "self : CR.Iv.I"), ("other", "other : Rat")], "CR.Iv.I",
-               attrs=dict(I), monadic=True, calls=mk),
-        Target("Interval_truediv", U, "__truediv__", "Interval", [("self", "self : CR.Iv.I"), ("other", "other : Rat")], "CR.Iv.I",
-               attrs=dict(I), monadic=True, calls=mk),
-        Target("Interval_length", U, "length", "Interval", [("self", "self : CR.Iv.I")], "Rat", attrs=dict(I)),
-        Target("Interval_gt_num", U, "__gt__", "Interval", [("self", "self : CR.Iv.I"), ("other", "other : Rat")], "Bool",
-               attrs=dict(I), types={"other": "num"}),
-        Target("Interval_gt_interval", U, "__gt__", "Interval", [("self", "self : CR.Iv.I"), ("other", "other : CR.Iv.I")], "Bool",
-               attrs={**I, **iv("other")}, types={"other": "Interval"}),
-        Target("Interval_lt_num", U, "__lt__", "Interval", [("self", "self : CR.Iv.I"), ("other", "other : Rat")], "Bool",
-               attrs=dict(I), types={"other": "num"}),
-        Target("Interval_lt_interval", U, "__lt__", "Interval", [("self", "self : CR.Iv.I"), ("other", "other : CR.Iv.I")], "Bool",
-               attrs={**I, **iv("other")}, types={"other": "Interval"}),
-        Target("AngleInterval_contains_value", U, "__contains__", "AngleInterval",
-               [(None, "τ ε : Rat"), ("self", "self : CR.Iv.I"), ("value", "value : Rat")], "Bool",
-               attrs={**I, ("self", "_TOLERANCE"): "ε"}, names={"TWO_PI": "τ"}),
-        Target("AngleInterval_contains_interval", U, "contains", "AngleInterval",
-               [(None, "τ ε : Rat"), ("self", "self : CR.Iv.I"), ("other", "other : CR.Iv.I")], "Bool",
-               attrs={**I, **iv("other"), ("self", "_TOLERANCE"): "ε"}, names={"TWO_PI": "τ"}, types={"other": "AngleInterval"}),
-        Target("AngleInterval_contains_num", U, "contains", "AngleInterval",
-               [(None, "τ ε : Rat"), ("self", "self : CR.Iv.I"), ("other", "other : Rat")], "Bool",
-               attrs={**I, ("self", "_TOLERANCE"): "ε"}, names={"TWO_PI": "τ"}, types={"other": "num"},
-               calls={"self.__contains__": ("AngleInterval_contains_value τ ε self", False)}),
-        Target("make_valid_orientation", U, "make_valid_orientation", None, [(None, "τ : Rat"), (None, "fuel : Nat"), ("angle", "angle : Rat")],
-               "Rat", names={"TWO_PI": "τ"}, fuel=True),
-        Target("make_valid_orientation_interval", U, "make_valid_orientation_interval", None,
-               [(None, "τ : Rat"), (None, "fuel : Nat"), ("angle_start", "angle_start : Rat"), ("angle_end", "angle_end : Rat")],
-               "Rat × Rat", names={"TWO_PI": "τ"}, fuel=True),
-        Target("Trajectory_state_at_time_step", "commonroad/scenario/trajectory.py", "state_at_time_step", "Trajectory",
-               [(None, "t0 : Int"), (None, "n : Nat"), ("time_step", "time_step : Int")], "Option Nat",
-               attrs={("self", "_initial_time_step"): "t0", ("self", "_state_list"): "(List.range n)"},
-               index_attrs={("self", "_state_list"): "some ({i}).toNat"},
-               doc="the state is identified by its index in the state list"),
-        Target("TrafficLightCycle_cycle_init_timesteps", "commonroad/scenario/traffic_light.py", "cycle_init_timesteps",
-               "TrafficLightCycle", [(None, "es : List CR.TL.Elem"), (None, "off : Int")], "List Int",
-               attrs={("self", "_cycle_elements"): "es", ("self", "time_offset"): "off", ("*", "duration"): "{v}.2"},
-               body_of_if=True, doc="memoised property: the computation inside `if not hasattr`"),
-        Target("TrafficLightCycle_get_state_at_time_step", "commonroad/scenario/traffic_light.py", "get_state_at_time_step",
-               "TrafficLightCycle", [(None, "es : List CR.TL.Elem"), (None, "off : Int"), ("time_step", "time_step : Int")], "Nat",
-               attrs={("self", "time_offset"): "off", ("self", "cycle_elements"): "es", ("[]", "state"): "({x}).1",
-                      ("self", "cycle_init_timesteps"): "(TrafficLightCycle_cycle_init_timesteps es off)"},
-               monadic=True, doc="returns the state ordinal of the selected element"),
-    ]
-    return ts
-
-
-def translate_target(repo, t: Target) -> str:
-    src = open(os.path.join(repo, t.file), encoding="utf-8").read()
-    tree = ast.parse(src)
-    fn = find_func(tree, t.cls, t.func)
-    tr = Tr(t)
-    out = tr.function(fn)
-    return out
-
-
-HEADER = """/-
-  Gen.Src — GENERATED on every run by harness/translate from the current source of /repo. Do not edit.
--/
-import CRModel.PyExt
-import CRModel.Interval
-import CRModel.TrafficLight
-set_option linter.unusedVariables false
-namespace Gen
-open CR
-
-"""
-
-
-def regenerate(repo, gen_dir):
+def regenerate(repo: str, gen_dir: str) -> dict:
     os.makedirs(gen_dir, exist_ok=True)
-    os.makedirs(LASTGOOD, exist_ok=True)
-    status, chunks = {}, []
-    for t in targets():
-        lg = os.path.join(LASTGOOD, t.name + ".lean")
+    status = {}
+    here = os.path.dirname(os.path.abspath(__file__))
+    for m in sorted(x.name for x in pkgutil.iter_modules([here])):
+        mod = importlib.import_module(f"translate.{m}")
+        f = getattr(mod, "regenerate", None)
+        if f is None:
+            continue
         try:
-            txt = translate_target(repo, t)
-            status[t.name] = "ok"
-        except (Unsupported, SyntaxError, KeyError, IndexError, AttributeError, OSError) as e:
-            if os.path.exists(lg):
-                txt = open(lg).read()
-                status[t.name] = f"lost ({type(e).__name__}: {e}); last good translation used"
-            else:
-                txt = f"-- {t.name}: not translatable ({e})\n"
-                status[t.name] = f"lost ({type(e).__name__}: {e}); no fallback"
-        chunks.append(txt)
-    new = HEADER + "\n".join(chunks) + "\nend Gen\n"
-    path = os.path.join(gen_dir, "Src.lean")
-    old = open(path).read() if os.path.exists(path) else None
-    if old != new:
-        with open(path, "w") as f:
-            f.write(new)
+            status.update(f(repo, gen_dir))
+        except Exception as e:  # noqa  -- a lost translator is never a verdict
+            status[m] = f"lost: {type(e).__name__}: {e}"
     return status
-
-
-def update_lastgood(repo):
-    os.makedirs(LASTGOOD, exist_ok=True)
-    for t in targets():
-        open(os.path.join(LASTGOOD, t.name + ".lean"), "w").write(translate_target(repo, t))
-
-
-if __name__ == "__main__":
-    import sys
-    if len(sys.argv) > 1 and sys.argv[1] == "--update-lastgood":
-        update_lastgood("/repo")
-    st = regenerate("/repo", os.path.join(os.path.dirname(os.path.dirname(HERE)), "lean", "Gen"))
-    for k, v in st.items():
-        print(k, v)
